@@ -85,5 +85,17 @@
 #ifndef EAV_VERIF_AT_is_special_domain_cut
 #define EAV_VERIF_AT_is_special_domain_cut
 #endif
+#ifndef EAV_VERIF_LOOP_sanitize_utf8
+#define EAV_VERIF_LOOP_sanitize_utf8
+#endif
+#ifndef EAV_VERIF_STEP_sanitize_utf8
+#define EAV_VERIF_STEP_sanitize_utf8
+#endif
+#ifndef EAV_VERIF_LOOP_parse_file
+#define EAV_VERIF_LOOP_parse_file
+#endif
+#ifndef EAV_VERIF_STEP_parse_file
+#define EAV_VERIF_STEP_parse_file
+#endif
 
 #endif
